@@ -19,6 +19,7 @@ ArrayIsResolved(e) == \A k \in 1..Len(e.zs) : e.array[k] = Resolve(e.preset, e.z
 
 Verdict(e) ==
   CASE e.ev = "resolve" -> IF Documented(e) THEN "ok" ELSE "Documented"
+    [] e.ev = "resolve_many" -> IF \A k \in 1..Len(e.zs) : e.vals[k] = Resolve(e.preset, e.zs[k]) THEN "ok" ELSE "DocumentedPerElement"
     [] e.ev = "custom" -> IF CustomUnchanged(e) THEN "ok" ELSE "CustomUnchanged"
     [] e.ev = "equiv" -> IF ~ArrayIsResolved(e) THEN "HARNESS-ArrayIsResolved"
                          ELSE IF PresetEqualsArray(e) THEN "ok" ELSE "PresetEqualsArray"
